@@ -58,10 +58,12 @@ namespace nmtools::index
                 if constexpr (meta::is_resizable_v<return_t>)
                     res.resize(dim);
 
+                // following numpy, negative axis counts from the last axis
+                const auto m_axis = ((nm_index_t)axis < 0) ? ((nm_index_t)axis + (nm_index_t)dim) : (nm_index_t)axis;
                 auto shape_compress_impl = [&](auto i){
                     using a_t = meta::get_element_or_common_type_t<axis_t>;
                     using idx_t = meta::promote_index_t<decltype(i),a_t>;
-                    at(res,i) = ((idx_t)i == (idx_t)axis) ? (idx_t)c_dim : (idx_t)at(shape,i);
+                    at(res,i) = ((nm_index_t)i == m_axis) ? (idx_t)c_dim : (idx_t)at(shape,i);
                 };
 
                 if constexpr (meta::is_fixed_index_array_v<shape_t>) {
@@ -127,10 +129,17 @@ namespace nmtools::index
         auto idx_nonzero = where(fun_nonzero, condition);
 
         // i should start form 0 to len(shape)
+        // following numpy, negative axis counts from the last axis
+        [[maybe_unused]] const auto m_axis = [&](){
+            if constexpr (is_none_v<axis_t>) {
+                return (nm_index_t)0;
+            } else {
+                return ((nm_index_t)axis < 0) ? ((nm_index_t)axis + (nm_index_t)len(shape)) : (nm_index_t)axis;
+            }
+        }();
         [[maybe_unused]] auto compress_impl = [&](auto i){
             auto dst_i = at(indices, i);
-            using common_t = meta::promote_index_t<axis_t,decltype(i)>;
-            at(res, i) = ((common_t)i == (common_t)axis) ? at(idx_nonzero,dst_i) : dst_i;
+            at(res, i) = ((nm_index_t)i == m_axis) ? at(idx_nonzero,dst_i) : dst_i;
         };
 
         if constexpr (is_none_v<axis_t>) {
